@@ -9,7 +9,7 @@ import (
 
 func init() {
 	register(&propDef{
-		ID: "C12", Level: "other", Run: runC12,
+		ID: "C12", Level: "other", Run: withShared(runC12, share{"C13", runC13, ruleIs("min-raise-init")}),
 		Explanation: "Raise(x) is extracted as a decision table (refused / delegated to Call / delegated to Allin / carried out) and compared with the minimum-raise rule on a bounded grid including negative and zero amounts; on the carried-out rows PreviousRaiseSize' = x - CurrentWager and the chip mover is paid x - Wager as a wager. For every offered action, the amount handed to the chip mover is non-negative for every caller-supplied argument (grid with negative parameters, state constraints only on state). Every in-round store to Status.CurrentWager is dominated by old < new, and raising the wager to match makes the payer the current raiser. Pot-limit rows are only checked for amount sign.",
 		Trusted:     commonTrusted,
 		Assumptions: []string{"state constraints on the grid: chip quantities >= 0, StackSize = InitialStackSize - Wager, Wager <= CurrentWager", "grid -3..6 for parameters, 0..6 for state (0..9 thorough)"},
